@@ -15,7 +15,7 @@ LEVEL_TEXT = ("Deductive part (vcgen/z3, all inputs, over a line-sequence file m
               "genotypes are trusted), each recombination lies between two variants of one phase set of a family member.")
 LEVEL_NOTE = "Seeded sampling. Trusted: independent VCF parser; wrappers substituted through module globals."
 TECHNIQUE = "bounded runtime contract on run_whatshap's list outputs against the output VCF and solver wrappers"
-D_MODULES = ["contracts.phase_py"]
+D_MODULES = [("contracts.phase_py", ["write_changed_genotypes"])]
 EXPLANATION = LEVEL_TEXT
 TRUSTED_BASE = ["scenario generators", "runtime/phase_driver.py wrappers"]
 ASSUMPTIONS = ["reads are phased-VCF pseudo reads (no BAM)"]
